@@ -356,4 +356,65 @@ theorem exec_refines_spec_hashjoin_int_width_unsound :
       (joinRel .inner (equiOn 1 [fun r => r.getD 0 .null] [fun r => r.getD 0 .null] (fun _ => some true)) 1 1 [[.i32 1]] [[.i64 1]]) := by
   decide
 
+
+/-! ## correlated scalar aggregate subqueries -/
+
+/-- a subquery over an EMPTY match set yields COUNT 0 and SUM / MIN / MAX NULL — for every outer row,
+whatever the other rows are. -/
+theorem scalar_subquery_empty (f : Row → Val) (corr : Pred) (R : List Row) (l : Row)
+    (h : matchesOf corr l R = []) :
+    scalarSubAgg ⟨.rowCount, f⟩ corr R l = .i32 0 ∧ scalarSubAgg ⟨.count, f⟩ corr R l = .i32 0 ∧
+    scalarSubAgg ⟨.countDistinct, f⟩ corr R l = .i32 0 ∧
+    scalarSubAgg ⟨.sum, f⟩ corr R l = .null ∧ scalarSubAgg ⟨.min, f⟩ corr R l = .null ∧
+    scalarSubAgg ⟨.max, f⟩ corr R l = .null := by
+  unfold scalarSubAgg
+  rw [h]
+  exact ⟨rfl, rfl, rfl, rfl, rfl, rfl⟩
+
+/-- with GROUP BY on the correlated column an outer row without partner has no group: NULL, also
+for COUNT. -/
+theorem scalar_group_subquery_empty (agg : AggCall) (corr : Pred) (L R : List Row) (l : Row) (hl : l ∈ L)
+    (h : matchesOf corr l R = []) : l ++ [Val.null] ∈ applyGroupAgg agg corr L R := by
+  unfold applyGroupAgg
+  rw [List.mem_map]
+  exact ⟨l, hl, by simp [h]⟩
+
+/-- nested iteration keeps every outer row exactly once, in order — duplicates included — and
+appends the subquery's value for THAT row. -/
+theorem apply_scalar_agg_keeps_outer_rows (agg : AggCall) (corr : Pred) (L R : List Row) :
+    (applyScalarAgg agg corr L R).length = L.length ∧
+    ∀ i : Nat, (applyScalarAgg agg corr L R)[i]? = (L[i]?).map (fun l => l ++ [scalarSubAgg agg corr R l]) := by
+  unfold applyScalarAgg
+  exact ⟨List.length_map _, fun i => List.getElem?_map⟩
+
+/-- the plan the rule `pushdown-apply-scalar-agg` produces, read with the L1 operators: GROUP BY all
+`nL` columns of the outer row over the LEFT OUTER join. -/
+def decorrScalarAgg (agg : AggCall) (corr : Pred) (nL nR : Nat) (L R : List Row) : List Row :=
+  groupAgg ((List.range nL).map (fun i r => r.getD i .null)) [agg] (leftJoin corr nR L R)
+
+/-- FULL statement (false twice): the decorrelated plan returns the bag of the nested iteration.
+Witness 1 — the COUNT bug: an outer row without partner is one NULL-padded row, COUNT(*) counts it
+(`select a,k from t where (select count(*) from u where u.x = t.a) = 0`, outer rows (2,2), (2,3)). -/
+theorem decorr_scalar_agg_count_bug_unsound :
+    ¬ (decorrScalarAgg ⟨.rowCount, fun _ => .null⟩ (fun r => sqlEq (r.getD 2 .null) (r.getD 0 .null)) 2 2
+          [[.i32 1, .i32 1], [.i32 2, .i32 2], [.i32 2, .i32 3], [.i32 3, .i32 4]]
+          [[.i32 1, .i32 10], [.i32 1, .i32 11], [.i32 3, .null]]).Perm
+        (applyScalarAgg ⟨.rowCount, fun _ => .null⟩ (fun r => sqlEq (r.getD 2 .null) (r.getD 0 .null))
+          [[.i32 1, .i32 1], [.i32 2, .i32 2], [.i32 2, .i32 3], [.i32 3, .i32 4]]
+          [[.i32 1, .i32 10], [.i32 1, .i32 11], [.i32 3, .null]]) := by
+  decide
+
+/-- Witness 2 — the outer row is the group key: two identical outer rows collapse into one output row
+whose aggregate sees every partner twice. -/
+theorem decorr_scalar_agg_duplicate_rows_unsound :
+    ¬ (decorrScalarAgg ⟨.sum, fun r => r.getD 3 .null⟩ (fun r => sqlEq (r.getD 2 .null) (r.getD 0 .null)) 2 2
+          [[.i32 1, .i32 1], [.i32 1, .i32 1]] [[.i32 1, .i32 10]]).Perm
+        (applyScalarAgg ⟨.sum, fun r => r.getD 3 .null⟩ (fun r => sqlEq (r.getD 2 .null) (r.getD 0 .null))
+          [[.i32 1, .i32 1], [.i32 1, .i32 1]] [[.i32 1, .i32 10]]) := by
+  decide
+
+example : applyScalarAgg ⟨.rowCount, fun _ => .null⟩ (fun r => sqlEq (r.getD 2 .null) (r.getD 0 .null))
+    [[.i32 2, .i32 2], [.i32 2, .i32 2], [.i32 1, .i32 1]] [[.i32 1, .i32 10], [.i32 1, .i32 11]] =
+    [[.i32 2, .i32 2, .i32 0], [.i32 2, .i32 2, .i32 0], [.i32 1, .i32 1, .i32 2]] := by decide
+
 end RlModel
